@@ -1244,17 +1244,23 @@ def leaks(o: tuple) -> bool:
 # correspondence with "no prediction" answers
 
 
-def correspond_tolerant(chk: C.Check, tag: str, items: list[dict[str, Any]], what: str) -> dict[str, Any]:
+def correspond_tolerant(chk: C.Check, tag: str, items: list[dict[str, Any]], what: str,
+                        defs: str = "") -> dict[str, Any]:
     """Like C.correspond, but a case on which the model answers [unmodelled]
     (OutOfFuel: behaviour this model does not transcribe) is counted as
     'no prediction' instead of a disagreement."""
-    rc = C.run_cases(tag, IMPORTS, "", [it["case"] for it in items],
+    rc = C.run_cases(tag, IMPORTS, defs, [it["case"] for it in items],
                      shard=min(120, max(40, -(-len(items) // C.JOBS))))
     for e in rc["errors"]:
         chk.notes.append("coq case error: " + e[:400])
     bad = rc["bad"]
-    outs = C.eval_terms(tag, IMPORTS, "", [items[i]["model"] for i in bad]) if bad else []
-    real = [(i, o) for i, o in zip(bad, outs) if not re.match(r"\(\d+%nat, OutOfFuel\)", o)]
+    outs = C.eval_terms(tag, IMPORTS, defs, [items[i]["model"] for i in bad]) if bad else []
+    if bad and "tol" in items[bad[0]]:
+        # the same comparison with [unmodelled] answers accepted: false = a real disagreement
+        tol = C.eval_terms(tag + "t", IMPORTS, defs, [items[i]["tol"] for i in bad])
+        real = [(i, o) for i, o, t in zip(bad, outs, tol) if "true" not in t]
+    else:
+        real = [(i, o) for i, o in zip(bad, outs) if not re.match(r"\(\d+%nat, OutOfFuel\)", o)]
     unmodelled = len(bad) - len(real)
     for i, o in real[:3]:
         chk.notes.append(f"{what}: model/implementation disagree on case #{i}: "
@@ -1275,6 +1281,19 @@ def correspond_tolerant(chk: C.Check, tag: str, items: list[dict[str, Any]], wha
     cov["model_no_prediction"] = cov.get("model_no_prediction", 0) + unmodelled
     cov.setdefault("correspondence_wall_s", {})[what] = round(rc["wall"], 1)
     return {"n": rc["n"], "real": real, "unmodelled": unmodelled, "errors": rc["errors"]}
+
+
+def model_item2(prog: list, data: list[tuple[str, tuple]], outs: dict[bool, tuple], src: str,
+                dref: str | None = None) -> dict[str, Any]:
+    """One case for both APIs: render() and render_async() of the same program and data."""
+    head = f"let p := {c_stmts(prog)} in let d := {dref or c_data(data)} in "
+    e0, e1 = c_outcome(outs[False]), c_outcome(outs[True])
+    tolm = lambda a, e: f"match render {a} p d with OutOfFuel => true | r => str_res_eqb r {e} end"  # noqa: E731
+    return {"case": head + f"(str_res_eqb (render false p d) {e0} && str_res_eqb (render true p d) {e1})%bool",
+            "tol": head + f"(({tolm('false', e0)}) && ({tolm('true', e1)}))%bool",
+            "model": head + "(render false p d, render true p d)",
+            "replay": {"source": src, "data": data if dref is None else dref,
+                       "implementation_sync": outs[False], "implementation_async": outs[True]}}
 
 
 def model_item(prog: list, data: list[tuple[str, tuple]], async_: bool, outcome: tuple, src: str) -> dict[str, Any]:
@@ -1824,19 +1843,27 @@ def main(chk: C.Check, build: C.Build) -> None:
 
     # -- 2. evaluator programs: correspondence + oracles ------------------------
     items: list[dict[str, Any]] = []
-    for prog, data in sweep_programs() + callable_programs(g) + duck_programs(thorough):
+    defs: list[str] = []
+    drefs: dict[int, str] = {}
+    fixed = sweep_programs() + callable_programs(g) + duck_programs(thorough)
+    hooks = hook_cases()
+    for _, data in fixed + hooks:
+        # these families share a few data sets: define each once per case file
+        if id(data) not in drefs:
+            drefs[id(data)] = "D%d" % len(drefs)
+            defs.append(f"Definition {drefs[id(data)]} : list (str * val) := {c_data(data)}.")
+    for prog, data in fixed:
         src = p_stmts(prog)
         outs = oracle_run(src, data, names=prog_names(prog), differential=False)
-        items += [model_item(prog, data, a, outs[a], src) for a in (False, True)]
+        items.append(model_item2(prog, data, outs, src, drefs[id(data)]))
     n_hook = 0
-    for prog, data in hook_cases():
+    for prog, data in hooks:
         src = p_stmts(prog)
-        for a in (False, True):             # hook sites: correspondence only
-            out = run_impl(src, data, async_=a)
-            evaluations += 1
-            n_hook += 1
-            items.append(model_item(prog, data, a, out, src))
-    n_rand = 450 if not thorough else 7000
+        outs = {a: run_impl(src, data, async_=a) for a in (False, True)}   # hook sites: correspondence only
+        evaluations += 2
+        n_hook += 1
+        items.append(model_item2(prog, data, outs, src, drefs[id(data)]))
+    n_rand = 600 if not thorough else 8000
     for i in range(n_rand):
         data = g.data()
         prog = g.program(data)
@@ -1850,7 +1877,7 @@ def main(chk: C.Check, build: C.Build) -> None:
             else:
                 dist["error"] += 1
                 err_classes[out[1]] = err_classes.get(out[1], 0) + 1
-            items.append(model_item(prog, data, a, out, src))
+        items.append(model_item2(prog, data, outs, src))
         if outs[False][:2] != outs[True][:2]:
             dist["sync_async_differ"] = dist.get("sync_async_differ", 0) + 1
         if i < 3:
@@ -1896,7 +1923,7 @@ def main(chk: C.Check, build: C.Build) -> None:
 
     # -- 5. correspondence ---------------------------------------------------------
     correspond_tolerant(chk, "c05a", ka, "ForLoop/TableRow/BlockDrop.__getitem__")
-    correspond_tolerant(chk, "c05r", items, "ObjAccess.render")
+    correspond_tolerant(chk, "c05r", items, "ObjAccess.render (sync and async)", "\n".join(defs))
     C.proofs_verdict(chk, proofs_ok)
 
     chk.coverage.update({
